@@ -133,26 +133,28 @@ class C02(Prop):
 
     def global_engine(self, ctx):
         """the REAL global recorder end to end (metrics::set_global_recorder + with_recorder), one
-        script per process: sequential installs / emissions on the main thread and on fresh threads,
+        script per process: sequential installs / emissions on the main thread, on fresh threads and
+        from destructors running while a thread unwinds from a panic (U / D: the context must not matter),
         and a parallel phase (emitters vs further losing installs).  Judged by the property: the
         first install wins, every other attempt hands its own recorder back intact, emissions before
         it go to the no-op recorder, every emission after it reaches the winner, on every thread."""
         from .core import run_impl
         rng = ctx["rng"].fork()
         n = 16 if ctx["tier"] == "quick" else 150
-        scripts = [["E", "I1", "E", "I2", "E", "F", "J3", "F", "E", "P3"], ["F", "J1", "F", "E", "I2", "E", "P2", "I3", "E"]]
+        scripts = [["E", "I1", "E", "I2", "E", "F", "J3", "F", "E", "P3"], ["F", "J1", "F", "E", "I2", "E", "P2", "I3", "E"],
+                   ["D", "U1", "E", "D", "I2", "F", "U3", "E", "P2"]]
         for _ in range(n - len(scripts)):
             ops, r = [], 1
             for _ in range(rng.range(4, 12)):
                 k = rng.below(10)
                 if k < 3:
-                    ops.append("%s%d" % (rng.pick("IJ"), r)); r += 1
+                    ops.append("%s%d" % (rng.pick("IJU"), r)); r += 1
                 elif k < 9:
-                    ops.append(rng.pick("EF"))
-                elif any(o[0] in "IJ" for o in ops):
+                    ops.append(rng.pick("EFD"))
+                elif any(o[0] in "IJU" for o in ops):
                     ops.append("P%d" % rng.range(2, 4))     # the parallel phase's extra installs must be losers
                 else:
-                    ops.append("%s%d" % (rng.pick("IJ"), r)); r += 1
+                    ops.append("%s%d" % (rng.pick("IJU"), r)); r += 1
             scripts.append(ops)
         bad = []
         for ops in scripts:
@@ -164,14 +166,14 @@ class C02(Prop):
             for op, t in zip(ops, toks):
                 if problem:
                     break
-                if op[0] in "IJ":
+                if op[0] in "IJU":
                     if winner is None:
                         if t != "K" + op[1:]:
                             problem = "first installation %s did not succeed: %s" % (op, t)
                         winner = op[1:]
                     elif t != "X" + op[1:]:
                         problem = "installation %s after a successful one returned %s (must fail and hand its own recorder back intact)" % (op, t)
-                elif op[0] in "EF":
+                elif op[0] in "EFD":
                     want = "N" if winner is None else "V" + winner
                     if t != want:
                         problem = "emission (%s) was dispatched to %s, expected %s" % (op, t, want)
